@@ -56,7 +56,9 @@ func asFloat(v any) (float64, string) {
 		// can we interpret it as a duration?
 		f, err := time.ParseDuration(v.(string))
 		if err == nil {
-			return float64(f.Milliseconds()), ""
+			// keep the fractional part so that sub-millisecond durations
+			// don't compare as zero
+			return float64(f) / float64(time.Millisecond), ""
 		}
 		// can we interpret it as a memory size?
 		var m MemorySize
